@@ -595,6 +595,13 @@ def judge_macsets(t, alpha, n, ix, ia_list, pid_base=None):
             M1 = np.asarray(G.MAC(X[:, 0].copy(), A.copy()))
             A3 = np.c_[A, X[:, 0]]
             M3 = np.asarray(G.MAC(X.copy(), A3))
+            # the two sets handed over as two VIEWS OF ONE ARRAY (a table of shapes split in two; adjacent and overlapping column blocks):
+            # an indicator is a function of the values, whatever memory they live in
+            B = np.ascontiguousarray(np.c_[X, A])
+            Mv = np.asarray(G.MAC(B[:, :2], B[:, 2:]))
+            Mvt = np.asarray(G.MAC(B[:, 2:], B[:, :2]))
+            Mo = np.asarray(G.MAC(B[:, 0:2], B[:, 1:3]))           # overlapping blocks: (x0, x1) against (x1, a0)
+            t.evaluations += 3
         except Exception as e:
             t.violation(f"MAC:raises-{type(e).__name__}:sets", f"gen.MAC raised {type(e).__name__}: {e}", case)
             continue
@@ -613,7 +620,10 @@ def judge_macsets(t, alpha, n, ix, ia_list, pid_base=None):
                             f"for X = {X.T.tolist()}, A = {A.T.tolist()}", case)
         ref3 = np.c_[ref, [[mac_ref(X[:, i], X[:, 0])] for i in range(2)]]
         ok = True
-        for nm, got, want in (("XA", M, ref), ("AX", Mt, ref.T), ("1D-vs-set", M1, ref[:1]), ("2x3", M3, ref3)):
+        refo = np.array([[mac_ref(X[:, i], v) for v in (X[:, 1], A[:, 0])] for i in range(2)])
+        for nm, got, want in (("XA", M, ref), ("AX", Mt, ref.T), ("1D-vs-set", M1, ref[:1]), ("2x3", M3, ref3),
+                              ("XA:two-views-of-one-array", Mv, ref), ("AX:two-views-of-one-array", Mvt, ref.T),
+                              ("overlapping-views-of-one-array", Mo, refo)):
             t.validated += 1
             if got.shape != want.shape:
                 t.violation(f"MAC:shape:{nm}", f"MAC has shape {got.shape}, expected {want.shape} (rows = shapes of the first set)", case)
@@ -638,6 +648,8 @@ def judge_macsets(t, alpha, n, ix, ia_list, pid_base=None):
             t.violation("MAC:not-symmetric-under-transposition", f"MAC(X,A) = {M.tolist()} but MAC(A,X)^T = {Mt.T.tolist()}", case)
             ok = False
         t.outcomes["macsets:ok" if ok else "macsets:BAD"] += 1
+        if ok and abs(ref[0, 1] - ref[1, 0]) > 1e-6:
+            t.outcomes["macsets:two-views-of-one-array:asymmetric-matrix-judged"] += 1
         if ok and abs(ref[0, 1] - ref[1, 0]) > 1e-6:
             t.outcomes["macsets:asymmetric-matrix(orientation observable)"] += 1
 
@@ -1390,7 +1402,7 @@ def explore(ctx):
     ctx.pmap(work_seqsets, sitems, chunksize=1)
     ctx.require("class:collinear", "class:collinear+zero", "class:constant-base", "class:general", "class:general+zero",
                 "class:near-collinear", "class:isotropic(MPD invariance not judged)", "MSF:ok:c<0", "MSF:ok:c>0",
-                "MSF:outside-domain", "MAC:same-array-rescaled-in-place:ok", "macsets:ok", "macsets:asymmetric-matrix(orientation observable)", "vector-judged")
+                "MSF:outside-domain", "MAC:same-array-rescaled-in-place:ok", "macsets:ok", "macsets:asymmetric-matrix(orientation observable)", "macsets:two-views-of-one-array:asymmetric-matrix-judged", "vector-judged")
     ctx.require("class:collinear+nearly-uniform", "class:near-collinear+nearly-uniform", "uniform:MPC-judged-against-1", "uniform:MPC-judged-for-invariance",
                 *[f"uniform:{kind}:spread={s:g}:judged" for kind in UNI_KINDS for s in UNI_SPREADS if kind == "collinear" or s >= UNI_NEAR_MIN_SPREAD],
                 *[f"uniform:n={n}:judged" for n in (UNI_N_THOROUGH if ctx.thorough else UNI_N)], *[f"uniform:mean={m:g}:judged" for m in UNI_MEANS])
